@@ -230,14 +230,25 @@ def _core_post(S, q, dm, hy, dim, nNodes, N, ns):
     F0 = dm.create_field(Vu)
     _obl(S, q + '/default_bc_value_is_zero', hy + inn + [isB.el(n_, c_)], tm.eq(F0.el(n_, c_), 0))
     # component slices
+    outer = P.CUR[0]
     for comp in range(dim):
-        sl = dm.slice_unknowns_with_dof_indices(Vu, ns['onp'].s_[:, comp])
+        # the method may branch on symbolic conditions: every path of the call is enumerated under the constructor's path condition
+        paths = P.explore(lambda: dm.slice_unknowns_with_dof_indices(Vu, ns['onp'].s_[:, comp]), list(hy))
+        P.CUR[0] = outer
         col = isU[:, comp]
         mc = col.mask()
-        _obl(S, q + '/component_slice_length_is_number_of_unknown_nodes[comp=%d]' % comp, hy, tm.eq(sl.shape[0], mc.total()))
-        nn = mc.pos(t)
-        _obl(S, q + '/component_slice_lists_unknown_entries_of_that_component_in_node_order[comp=%d]' % comp,
-             hy + [t >= 0, t < mc.total()], tm.and_(isU.el(nn, comp), tm.eq(sl.el(t), Vu.el(mu.cnt(nn * dim + comp)))))
+        for pi, (c2, sl, st2) in enumerate(paths):
+            if st2 != 'returned':
+                continue
+            hy2 = c2.hyps()
+            sfx = '' if len(paths) == 1 else '@path%d' % pi
+            if not isinstance(sl, A.PArr):
+                _obl(S, q + '/component_slice_is_an_array[comp=%d]%s' % (comp, sfx), hy2, tm.FALSE)
+                continue
+            _obl(S, q + '/component_slice_length_is_number_of_unknown_nodes[comp=%d]%s' % (comp, sfx), hy2, tm.eq(sl.shape[0], mc.total()))
+            nn = mc.pos(t)
+            _obl(S, q + '/component_slice_lists_unknown_entries_of_that_component_in_node_order[comp=%d]%s' % (comp, sfx),
+                 hy2 + [t >= 0, t < mc.total()], tm.and_(isU.el(nn, comp), tm.eq(sl.el(t), Vu.el(mu.cnt(nn * dim + comp)))))
 
 
 def _complement(mu, mb, N):
